@@ -704,6 +704,46 @@ func maxU64(a, b uint64) uint64 {
 	return b
 }
 
+// c09Lifetime: a long-running process calls the same decoder tens of thousands of times; anything
+// the library counts or accumulates per call (a counter that wraps at 2^16, a cache that is dropped
+// or grows) shows only then. Every entry point is called 70 000 times in one process on a few
+// short inputs; a panic on any of the calls is a violation like any other.
+func c09Lifetime(c *core.Ctx, entries []c09Entry) {
+	const calls = 70000
+	for ei, e := range entries {
+		if !c.Mine("lifetime", int64(ei)) {
+			continue
+		}
+		r := c.RNG("lifetime", int64(ei))
+		var ins [][]byte
+		for k := 0; k < 8; k++ {
+			switch {
+			case e.json:
+				ins = append(ins, c09JSONInput(r, ei+k))
+			case e.text:
+				ins = append(ins, c09TextInput(r, r.Intn(40)))
+			default:
+				in, _ := c09Binary(r, e, int64(k+3))
+				if len(in) > 64 {
+					in = in[:64]
+				}
+				ins = append(ins, in)
+			}
+		}
+		bad := false
+		for k := 0; k < calls && !bad; k++ {
+			in := ins[k%len(ins)]
+			arg := append(make([]byte, 0, len(in)), in...)
+			if p, msg := core.Guard(func() { e.call(r, arg) }); p {
+				c.Violate("C09|panic|"+e.name+"|"+core.PanicSite(msg), "call number %d of %s in this process (input %s) panics: %s", k+1, e.name, showInput(in, e.text), short(msg, 300))
+				bad = true
+			}
+		}
+		c.Eval(calls)
+		c.Shape("lifetime", e.name)
+	}
+}
+
 // c09ConcurrentRegistry: "never hangs" includes decoding while another goroutine
 // registers a proprietary MAC command (the registry is the one lock decoders
 // take). A deadlock leaves the case stuck; the worker watchdog and the parent's
@@ -779,6 +819,7 @@ func runC09(c *core.Ctx) {
 	entries := c09Entries()
 	c09Grid(c, entries)
 	c09Scaling(c, entries)
+	c09Lifetime(c, entries)
 	c09ConcurrentRegistry(c)
 	per := c.N(3000, 1500000)
 	for ei, e := range entries {
